@@ -271,6 +271,29 @@ def ok_C05(ctx, snap):
         exp["min_stops"] = o["f_min_stops"] * val
     if o.get("f_stop_balance", 0) > 0:
         exp["stop_balance"] = o["f_stop_balance"] * max([len(r) - 2 for r in snap["routes"].values()] + [0])
+    # capacity excess as an objective (the constraint switched off): excess at every stop of every route - vehicle start and end
+    # included - when something is ever dropped off, else at the end of the route; the offset once when there is any excess
+    if o.get("dis_capacity"):
+        import gen_engine as _G
+        names = _G.res_names(m)
+        for r, f, off in o.get("cap_obj", []):
+            if f <= 0:
+                continue
+            drops = any(st_["quantity"][r] > 0 for st_ in m["stops"] if len(st_["quantity"]) > r)
+            tot = 0
+            for v, rt in snap["routes"].items():
+                ve = m["vehicles"][v]
+                cap = ve["capacity"][r] if ve["capacity"] is not None else 0
+                lvl = (ve["start_level"][r] if ve["capacity"] is not None and len(ve["start_level"]) > r else 0)
+                levels = [lvl]
+                for x in rt[1:]:
+                    if x < n_in and len(m["stops"][x]["quantity"]) > r:
+                        lvl -= m["stops"][x]["quantity"][r]
+                    levels.append(lvl)
+                tot += sum(max(0, l_ - cap) for l_ in levels) if drops else max(0, levels[-1] - cap)
+            if tot > 0:
+                tot += off
+            exp["capacity_" + names[r]] = f * tot
     for k, v in exp.items():
         if snap["terms"].get(k, F(0)) != v:
             fails.append("objective term %s reported %s, recomputed from routes %s" % (k, snap["terms"].get(k, 0), v))
